@@ -524,8 +524,7 @@ func genProcs(t *rapid.T) []int {
 
 func genLogSeq(t *rapid.T) LProg {
 	p := LProg{Procs: genProcs(t)}
-	minLen := rapid.SampledFrom([]int{1, 1, 8, 16}).Draw(t, "min_ops")
-	p.Gs = [][]LOp{rapid.SliceOfN(genRawLOp(false), minLen, 40).Draw(t, "ops")}
+	p.Gs = [][]LOp{genChunked(t, genRawLOp(false), 12)}
 	normaliseL(&p)
 	return p
 }
@@ -560,7 +559,7 @@ func runLogSeq(p LProg) ([]vk.Violation, vk.Info) {
 func TestLogLifecycle(t *testing.T) {
 	vk.Run(t, vk.Spec[LProg]{
 		Property: "C15", Check: "log_lifecycle",
-		Rule: "generated op lists (1-40 ops: Logger / Emit through the logger obtained at construction, through loggers obtained earlier or right now / ForceFlush / Shutdown with live or already-cancelled contexts, repeated) on a LoggerProvider with 0-4 processors drawn from recording processors (one failing), SimpleProcessor and BatchProcessor around a recording exporter and around nil; " +
+		Rule: "generated op lists (1-48 ops: Logger / Emit through the logger obtained at construction, through loggers obtained earlier or right now / ForceFlush / Shutdown with live or already-cancelled contexts, repeated) on a LoggerProvider with 0-4 processors drawn from recording processors (one failing), SimpleProcessor and BatchProcessor around a recording exporter and around nil; " +
 			"non-trivial = at least one processor, a Shutdown with a live context returned nil and an Emit follows it; distinct = distinct case encodings",
 		Quick: 2000, Thorough: 25000,
 		Gen: genLogSeq, Run: runLogSeq,
